@@ -49,6 +49,15 @@ fn derived_wanted<T: std::hash::Hash>(input: &[T]) -> bool {
     input.len() > 24 || h64(&input) % 4 == 0
 }
 
+/// donors of the clone_from route: all three for long inputs, one (chosen by the content hash) for tiny ones
+fn donors_for<T: std::hash::Hash>(input: &[T]) -> Vec<u8> {
+    if input.len() > 24 {
+        vec![0, 1, 2]
+    } else {
+        vec![((h64(&input) / 4) % 3) as u8]
+    }
+}
+
 fn round_trip<X: Serialize + serde::de::DeserializeOwned>(ctx: &mut Ctx, t: &X) -> Option<X> {
     ctx.count("derived_states_swept");
     ctx.total("deserialize(serialize(..))", "deserialized", 0, 0, 0, || bincode::deserialize::<X>(&bincode::serialize(t).unwrap()).unwrap())
@@ -82,6 +91,22 @@ fn run_quad<X: QuadRS>(ctx: &mut Ctx, gen: &Gen, path: u8, dense: usize) {
     let t = ctx.total("construct", "", path as u128, n as u64, 0, || match path {
         0 => X::new_u8(&q),
         1 => X::from(q.iter().copied().collect::<QVector>()),
+        3 => {
+            // a quad vector assembled in several builder steps: pushes, then extend, then pushes, then extend
+            let mut b = qwt::QVectorBuilder::new();
+            let k1 = (1 + n % 129).min(n);
+            let k2 = (k1 + 130).min(n);
+            let k3 = (k2 + 1).min(n);
+            for &x in &q[..k1] {
+                b.push(x);
+            }
+            b.extend(q[k1..k2].iter().copied());
+            for &x in &q[k2..k3] {
+                b.push(x);
+            }
+            b.extend(q[k3..].iter().map(|&x| x as u64));
+            X::from(b.build())
+        }
         _ => X::collect_u64(&q),
     });
     if let Some(t) = t {
@@ -90,6 +115,21 @@ fn run_quad<X: QuadRS>(ctx: &mut Ctx, gen: &Gen, path: u8, dense: usize) {
         if derived_wanted(&q) {
             if let Some(d) = round_trip(ctx, &t) {
                 sweep_quadrs(ctx, &d, &r, dense.min(600), false, "deserialized");
+            }
+            // clone_from into a value that held something else (Default, a longer and a shorter sequence of one symbol)
+            for donor in donors_for(&q) {
+                ctx.count("derived_states_swept");
+                let d = ctx.total("clone_from", "clone_from", donor as u128, 0, 0, || {
+                    derived(&t, 3, || match donor {
+                        0 => X::default(),
+                        1 => X::new_u8(&vec![3u8; n + 700]),
+                        _ => X::new_u8(&vec![1u8; (n / 2).max(1)]),
+                    })
+                });
+                if let Some(d) = d {
+                    sweep_quadrs(ctx, &d, &r, dense.min(600), false, "clone_from");
+                    ctx.obs("clone_from(x) == x", "clone_from", donor as u128, 0, 0, Exp::Is(true), || d == t);
+                }
             }
         }
     }
@@ -167,6 +207,21 @@ fn run_bin<X: BinRS>(ctx: &mut Ctx, gen: &BitGen, path: u8, dense: usize) {
             if let Some(d) = round_trip(ctx, &t) {
                 sweep_binrs(ctx, &d, &r, dense.min(600), false, "deserialized");
             }
+            let n = bits.len();
+            for donor in donors_for(&bits) {
+                ctx.count("derived_states_swept");
+                let d = ctx.total("clone_from", "clone_from", donor as u128, 0, 0, || {
+                    derived(&t, 3, || match donor {
+                        0 => X::default(),
+                        1 => X::new_((0..n + 1400).map(|i| i % 3 != 0).collect::<BitVector>()),
+                        _ => X::new_((0..(n / 2).max(1)).map(|_| false).collect::<BitVector>()),
+                    })
+                });
+                if let Some(d) = d {
+                    sweep_binrs(ctx, &d, &r, dense.min(600), false, "clone_from");
+                    ctx.obs("clone_from(x) == x", "clone_from", donor as u128, 0, 0, Exp::Is(true), || d == t);
+                }
+            }
         }
     }
 }
@@ -214,6 +269,21 @@ fn run_darray<const S0: bool>(ctx: &mut Ctx, gen: &BitGen, path: u8, dense: usiz
             if let Some(d) = round_trip(ctx, &t) {
                 sweep_darray(ctx, &d, &r, dense.min(600), false, "deserialized", &starts);
             }
+            let n = bits.len();
+            for donor in donors_for(&bits) {
+                ctx.count("derived_states_swept");
+                let d = ctx.total("clone_from", "clone_from", donor as u128, 0, 0, || {
+                    derived(&t, 3, || match donor {
+                        0 => DArray::<S0>::default(),
+                        1 => (0..n + 70_000).map(|i| i % 3 != 0 || i > n).collect::<DArray<S0>>(),
+                        _ => (0..(n / 2).max(1)).map(|i| i % 2000 == 0).collect::<DArray<S0>>(),
+                    })
+                });
+                if let Some(d) = d {
+                    sweep_darray(ctx, &d, &r, dense.min(600), false, "clone_from", &starts);
+                    ctx.obs("clone_from(x) == x", "clone_from", donor as u128, 0, 0, Exp::Is(true), || d == t);
+                }
+            }
         }
     }
 }
@@ -227,8 +297,34 @@ fn enumerate(args: &Args) -> Vec<VCase> {
             for g in tiny_all(4, if th { 11 } else { 10 }) {
                 for ty in tys {
                     // construction path rotates with the case for the tiny family; all three for the long ones
-                    let p = (v.len() % 3) as u8;
+                    let p = (v.len() % 4) as u8;
                     v.push(VCase::Quad { ty: ty.into(), gen: g.clone(), path: p, dense: 8193 });
+                }
+            }
+            // exhaustive at block granularity (blocks of 256 and of 512 symbols, constant fills): every sequence of up to 6
+            // (thorough 8) blocks over the four symbols, with and without a partial block at the end, and every sequence of 7..=11
+            // (thorough ..=17) blocks over two symbols - crosses the 8-block superblock, counters of 2048 and more inside one
+            // superblock; for the 512 variant also the one-hot and prefix fillings of 17 blocks (two superblocks)
+            for b in [256usize, 512] {
+                for extra in [0usize, 1] {
+                    for g in coarse_all(4, if th { 8 } else { 6 }, b, extra) {
+                        for ty in tys {
+                            v.push(VCase::Quad { ty: ty.into(), gen: g.clone(), path: (v.len() % 3) as u8, dense: 3 });
+                        }
+                    }
+                }
+                for g in coarse_all(2, if th { 17 } else { 11 }, b, 0) {
+                    if matches!(g, Gen::CoarseTiny { len, .. } if len < 7) {
+                        continue;
+                    }
+                    for ty in tys {
+                        v.push(VCase::Quad { ty: ty.into(), gen: g.clone(), path: (v.len() % 3) as u8, dense: 3 });
+                    }
+                }
+            }
+            for j in 0..17u32 {
+                for idx in [1u64 << j, (1u64 << (j + 1)) - 1, !((1u64 << j) - 1) & 0x1ffff] {
+                    v.push(VCase::Quad { ty: "RSQVector512".into(), gen: Gen::CoarseTiny { k: 2, len: 17, idx, b: 512, extra: 0 }, path: (v.len() % 3) as u8, dense: 3 });
                 }
             }
             let mut lens = boundary_lengths(th);
@@ -252,8 +348,8 @@ fn enumerate(args: &Args) -> Vec<VCase> {
                         // Const(c) % sigma would fold to 0: use sigma 4 for the constant patterns
                         let sg = if matches!(p, Pat::Const(_)) { 4 } else { sigma };
                         for ty in tys {
-                            for path in 0..3u8 {
-                                if n > 20_000 && path != (v.len() % 3) as u8 {
+                            for path in 0..4u8 {
+                                if n > 20_000 && path != (v.len() % 4) as u8 {
                                     continue;
                                 }
                                 v.push(VCase::Quad { ty: ty.into(), gen: Gen::Boundary { n, pat: p, sigma: sg }, path, dense: if th { 8193 } else { 2049 } });
@@ -275,6 +371,17 @@ fn enumerate(args: &Args) -> Vec<VCase> {
                 for pat in bit_patterns() {
                     for ty in tys {
                         v.push(VCase::Bin { ty: ty.into(), gen: BitGen::Pat { n, pat }, path: (v.len() % 5) as u8, dense: if th { 8193 } else { 2049 } });
+                    }
+                }
+            }
+            // exhaustive at word / line granularity: every sequence of up to 8 (thorough 9) words and of up to 8 (9) lines of 512
+            // bits over the fills {zeros, ones, first bit only, last bit only}, with 0 / 1 trailing bits
+            for (unit, maxlen) in [(64usize, if th { 9 } else { 8 }), (512, if th { 8 } else { 6 })] {
+                for extra in [0usize, 1] {
+                    for g in coarse_bits_all(unit, if extra == 1 { maxlen - 2 } else { maxlen }, extra) {
+                        for ty in tys {
+                            v.push(VCase::Bin { ty: ty.into(), gen: g.clone(), path: (v.len() % 5) as u8, dense: if unit == 64 { 600 } else { 3 } });
+                        }
                     }
                 }
             }
@@ -357,6 +464,10 @@ fn enumerate(args: &Args) -> Vec<VCase> {
                         v.push(VCase::DArr { sel0: true, gen: BitGen::Groups { groups: vec![], partial, pk, lead: 0, tail: 0, complement }, path: (v.len() % 3) as u8, dense: 8193 });
                     }
                 }
+            }
+            // a few ones (and, complemented by construction path 1 of DArray<true>, their zeros) whose gaps sit on the 16-bit boundary
+            for g in boundary_gap_lists(3) {
+                v.push(VCase::DArr { sel0: v.len() % 2 == 0, gen: g, path: (v.len() % 3) as u8, dense: 300 });
             }
             for &n in &bit_lengths(false) {
                 for pat in bit_patterns() {
